@@ -45,7 +45,7 @@ def gather(m, e):
     if k == "var":
         return (D[e[1]][1], D[e[1]][2])
     if k == "sel":
-        return (e[2] - e[3] + 1, False)
+        return (e[2] - e[3] + 1, D[e[1]][2])
     if k == "un":
         if e[1] in ("plus", "minus", "bitnot"):
             return gather(m, e[2])
@@ -550,7 +550,7 @@ class Gen:
             return self.lit()
         x = r.choice(avail)
         w = self.decls[x][1]
-        if self.p["sel"] and w > 1 and r.random() < 0.25:
+        if self.p["sel"] and w > 1 and not self.decls[x][2] and r.random() < 0.25:
             hi = r.randint(0, w - 1)
             lo = r.randint(0, hi)
             if r.random() < 0.3:
@@ -563,6 +563,43 @@ class Gen:
             return ("sel", x, hi, lo)
         return ("var", x)
 
+    def selfwidth_leaf(self, avail, depth, any_sign=False):
+        """variable or concatenation (an operand that keeps its own width)"""
+        r = self.r
+        vs = [x for x in avail if any_sign or not self.decls[x][2]]
+        if vs and r.random() < 0.7:
+            return ("var", r.choice(vs))
+        items = []
+        tot = 0
+        for _ in range(r.randint(1, 3)):
+            a = self.leaf(avail) if r.random() < 0.7 else self.expr(avail, max(0, depth - 1))
+            wa = gather(self.m(), a)[0]
+            rep = r.choice([1, 1, 2, 3])
+            if tot + wa * rep > 200:
+                continue
+            tot += wa * rep
+            items.append((a, rep))
+        if not items:
+            return ("cat", [(("lit", 4, False, r.randint(0, 15), 0), 1)])
+        return ("cat", items)
+
+    def cast(self, avail, depth):
+        """`e as w` on the fragment where all engines agree: unsigned operand that is either a
+        variable / select / literal / concatenation (any w) or an operator expression being really
+        narrowed (w < its width)"""
+        r = self.r
+        if r.random() < 0.5:
+            a = self.expr(avail, depth)
+            ga = gather(self.m(), a)
+            if not ga[1] and ga[0] > 1 and a[0] in ("bin", "un", "tern") :
+                return ("cast", r.randint(1, ga[0] - 1), a)
+        a = self.selfwidth_leaf(avail, depth)
+        if r.random() < 0.3:
+            a = self.leaf([x for x in avail if not self.decls[x][2]])
+            if gather(self.m(), a)[1]:
+                a = ("lit", 5, False, r.randint(0, 31), 0)
+        return ("cast", self.width(), a)
+
     def cond(self, avail, depth):
         """1-bit expression"""
         r = self.r
@@ -571,10 +608,13 @@ class Gen:
             ones = [x for x in avail if self.decls[x][1] == 1]
             if ones and r.random() < 0.6:
                 return ("var", r.choice(ones))
-            if avail:
-                x = r.choice(avail)
+            uns = [x for x in avail if not self.decls[x][2] and self.decls[x][1] > 1]
+            if uns:
+                x = r.choice(uns)
                 i = r.randint(0, self.decls[x][1] - 1)
-                return ("sel", x, i, i) if self.decls[x][1] > 1 else ("var", x)
+                return ("sel", x, i, i)
+            if avail:
+                return ("un", "ror", ("var", r.choice(avail)))
             return ("lit", 1, False, r.randint(0, 1), 0)
         if k < 0.4:
             return ("bin", r.choice(REL), self.expr(avail, depth - 1), self.expr(avail, depth - 1))
@@ -596,13 +636,23 @@ class Gen:
         if k < 0.22:
             ops = ARITH if self.p["div"] else ["add", "sub", "mul"]
             wts = [4, 4, 2, 1, 1][:len(ops)]
-            return ("bin", r.choices(ops, wts)[0], self.expr(avail, d), self.expr(avail, d))
+            op = r.choices(ops, wts)[0]
+            b = self.expr(avail, d)
+            if op in ("div", "rem") and not self.p.get("div_by_zero"):
+                gb = gather(self.m(), b)
+                b = ("bin", "or", b, ("lit", 2 if gb[1] else 1, gb[1], 1, 0))      # never zero
+            return ("bin", op, self.expr(avail, d), b)
         if k < 0.38:
             return ("bin", r.choice(BITW), self.expr(avail, d), self.expr(avail, d))
         if k < 0.5:
             a = self.expr(avail, d)
-            sg = gather(self.m(), a)[1]
-            op = r.choice(SHIFT if sg else ["shl", "shr"])
+            op = r.choice(["shl", "shr"])
+            svars = [x for x in avail if self.decls[x][2]]
+            if svars and r.random() < 0.4:
+                # <<< / >>> only where the analyzer sees a signed left operand (a signed variable or
+                # $signed(var)); it flags the others (unsigned_arith_shift)
+                a = ("var", r.choice(svars)) if r.random() < 0.7 else ("sign", True, ("var", r.choice(avail)))
+                op = r.choice(["ashr", "ashr", "ashl"])
             if r.random() < 0.5:
                 wa = gather(self.m(), a)[0]
                 amt = r.choice([0, 1, wa - 1, wa, wa + 1, 31, 32, 33, 63, 64, 65, r.randint(0, wa + 2)])
@@ -637,26 +687,43 @@ class Gen:
                 return self.leaf(avail)
             return ("cat", items)
         if k < 0.92 and self.p["cast"]:
-            return ("cast", self.width(), self.expr(avail, d))
+            return self.cast(avail, d)
         if k < 0.97 and self.p["sign"]:
-            return ("sign", r.random() < 0.7, self.expr(avail, d))
+            return ("sign", r.random() < 0.7, self.selfwidth_leaf(avail, d, any_sign=True))
         if self.p["pow"]:
             return ("bin", "pow", self.expr(avail, d), ("lit", 3, False, r.randint(0, 5), 0))
         return self.leaf(avail)
 
     # --- statements
+    def two_state_view(self, targets, avail):
+        """a `bit` destination accepts only 2-state sources (analyzer: MismatchAssignment otherwise)"""
+        if targets and self.decls[targets[0]][3]:
+            return [x for x in avail if self.decls[x][3]]
+        return avail
+
     def block(self, targets, avail, depth, where):
         """statements assigning (some of) `targets`; in comb every target has a default first"""
         r = self.r
         out = []
-        local = list(avail)
+        local = list(self.two_state_view(targets, avail))
         if where == "comb":
             for t in targets:
                 out.append(("assign", t, self.expr(local, depth)))
                 local.append(t)
+        if where == "ff":
+            for t in targets:
+                if r.random() < 0.6:
+                    out.append(("assign", t, self.expr(local, depth)))
         n = r.randint(1, 3) if where == "comb" else r.randint(1, 2 + len(targets))
         for _ in range(n):
             out.append(self.stmt(targets, local, depth, where, 2))
+        if where == "ff":
+            wr = set()
+            for s in out:
+                stmt_rw(s, set(), wr)
+            for t in targets:
+                if t not in wr:
+                    out.append(("assign", t, self.expr(local, depth)))
         return out
 
     def stmt(self, targets, avail, depth, where, nest):
@@ -704,23 +771,25 @@ class Gen:
         # FF state variables are readable everywhere
         ffgroups = []
         for _ in range(n_ff):
-            grp = [self.decl("q", "out" if r.random() < 0.6 else "var") for _ in range(r.randint(1, 2))]
+            two = r.random() < self.p["p_bit"]
+            grp = [self.decl("q", "out" if r.random() < 0.6 else "var", two=two) for _ in range(r.randint(1, 2))]
             ffgroups.append(grp)
         ffvars = [x for g in ffgroups for x in g]
         avail = ins + ffvars
         comb_items = []
         for _ in range(n_comb):
+            two = r.random() < self.p["p_bit"]
             if r.random() < 0.5:
-                t = self.decl("c", "out" if r.random() < 0.5 else "var")
-                comb_items.append(("assign", t, self.expr(avail, depth)))
+                t = self.decl("c", "out" if r.random() < 0.5 else "var", two=two)
+                comb_items.append(("assign", t, self.expr(self.two_state_view([t], avail), depth)))
                 avail.append(t)
             else:
-                ts = [self.decl("c", "out" if r.random() < 0.5 else "var") for _ in range(r.randint(1, 3))]
+                ts = [self.decl("c", "out" if r.random() < 0.5 else "var", two=two) for _ in range(r.randint(1, 3))]
                 comb_items.append(("comb", self.block(ts, avail, max(1, depth - 1), "comb")))
                 avail += ts
         # every var must be observable somehow: add outputs for vars nobody exports
         if not any(d[4] == "out" for d in self.decls):
-            t = self.decl("o", "out")
+            t = self.decl("o", "out", two=False)
             comb_items.append(("assign", t, self.expr(avail, depth)))
             avail.append(t)
         ff_items = []
@@ -819,3 +888,239 @@ def stim_to_json(stim):
 
 def stim_from_json(j):
     return [(bool(r), [(int(p, 16), int(mk, 16)) for p, mk in vals]) for r, vals in j]
+
+
+# ------------------------------------------------------------------------------------ shapes that trigger the simulator's passes
+# (crates/simulator/src/ir/opt/*.rs).  Each returns a module; all are ordinary µRTL programs.
+
+def _finish(g, comb_items, ff_items, shuffle=True):
+    items = [it for it in comb_items] + [it for it in ff_items]
+    idx = list(range(len(items)))
+    if shuffle:
+        g.r.shuffle(idx)
+    shuffled = [items[i] for i in idx]
+    pos = {old: new for new, old in enumerate(idx)}
+    return {"decls": g.decls, "items": shuffled, "order": [pos[i] for i in range(len(comb_items))]}
+
+
+def shape_chain(rng, n=None, narrow=True):
+    """long dependent chain of single-reader internal vars (comb fusion inlines them; dead ones are
+    dropped by dead_var_dce; duplicate writes by dup_assign_dce)"""
+    g = Gen(rng, p_bit=0, wide=not narrow, max_depth=2)
+    n = n or rng.randint(8, 40)
+    ins = [g.decl("i", "in") for _ in range(rng.randint(2, 4))]
+    avail = list(ins)
+    comb = []
+    prev = rng.choice(ins)
+    for k in range(n):
+        t = g.decl("t", "var", w=rng.choice([1, 7, 8, 16, 31, 32, 33, 63, 64]) if narrow else None)
+        kind = rng.random()
+        if kind < 0.7:
+            # reads the previous link exactly once
+            e = ("bin", rng.choice(["add", "sub", "xor", "and", "or", "mul"]), ("var", prev), g.expr(ins, 1))
+            comb.append(("assign", t, e))
+        elif kind < 0.85:
+            # duplicate write in one block: the first is dead
+            comb.append(("comb", [("assign", t, g.expr(avail, 2)), ("assign", t, ("bin", "add", ("var", prev), g.lit(8)))]))
+        else:
+            comb.append(("comb", [("assign", t, ("var", prev)),
+                                  ("if", g.cond(avail, 1), [("assign", t, g.expr(avail, 2))], [])]))
+        avail.append(t)
+        if rng.random() < 0.15:
+            d = g.decl("dead", "var", w=rng.choice([8, 16, 64]) if narrow else None)     # never read
+            comb.append(("assign", d, g.expr(avail, 2)))
+        prev = t
+    o = g.decl("o", "out", w=g.decls[prev][1])
+    comb.append(("assign", o, ("var", prev)))
+    o2 = g.decl("o", "out")
+    comb.append(("assign", o2, g.expr(avail, 2)))
+    q = g.decl("q", "out", w=g.decls[prev][1])
+    ffs = [("ff", [("assign", q, g.lit(g.decls[q][1], False))], [("assign", q, ("bin", "xor", ("var", q), ("var", prev)))])]
+    return _finish(g, comb, ffs)
+
+
+def shape_lanes(rng):
+    """per-bit statements over words (lane_vector fold/merge; field-store coalescing; version split
+    of bit-disjoint writers)"""
+    g = Gen(rng, p_bit=0, max_depth=2)
+    w = rng.choice([16, 17, 24, 32, 33, 48, 64])
+    a = g.decl("a", "in", w=w, sg=False, two=False)
+    b = g.decl("b", "in", w=w, sg=False, two=False)
+    c = g.decl("c", "in", w=rng.choice([1, 4, 8]), sg=False, two=False)
+    y = g.decl("y", "out", w=w, sg=False, two=False)
+    z = g.decl("z", "out", w=w, sg=False, two=False)
+    rev = g.decl("rev", "var", w=w, sg=False, two=False)
+    op = rng.choice(["and", "or", "xor", "xnor"])
+    body = []
+    perm = list(range(w))
+    if rng.random() < 0.5:
+        rng.shuffle(perm)
+    for j in perm:
+        body.append(("asel", y, j, j, ("bin", op, ("sel", a, j, j), ("sel", b, j, j))))
+    body2 = [("asel", rev, j, j, ("sel", a, w - 1 - j, w - 1 - j)) for j in range(w)]
+    body3 = []
+    for j in range(w):
+        lo = max(0, j - 3)
+        body3.append(("asel", z, j, j, ("un", rng.choice(["ror", "rand", "rxor"]), ("sel", rev, j, lo))))
+    comb = [("comb", body2), ("comb", body), ("comb", body3)]
+    q = g.decl("q", "out", w=w, sg=False, two=False)
+    ffs = [("ff", [("assign", q, ("lit", w, False, 0, 0))],
+            [("asel", q, j, j, ("bin", "xor", ("sel", q, (j + 1) % w, (j + 1) % w), ("sel", y, j, j))) for j in range(0, w, 2)])]
+    return _finish(g, comb, ffs)
+
+
+def shape_case(rng):
+    """wide case statements in always_comb and always_ff (switch lowering, cond hoist, version split)"""
+    g = Gen(rng, p_bit=0, max_depth=2)
+    ws = rng.choice([3, 4, 5, 6])
+    sel = g.decl("s", "in", w=ws, sg=False)
+    ins = [sel] + [g.decl("i", "in") for _ in range(rng.randint(2, 3))]
+    y = g.decl("y", "out")
+    y2 = g.decl("y", "out")
+    vals = list(range(1 << ws))
+    rng.shuffle(vals)
+    arms = []
+    while vals and len(arms) < rng.randint(6, 16):
+        k = rng.randint(1, min(3, len(vals)))
+        pats = [("lit", ws, False, vals.pop(), 0) for _ in range(k)]
+        body = [("assign", y, g.expr(ins, 2))]
+        if rng.random() < 0.5:
+            body.append(("assign", y2, g.expr(ins, 2)))
+        if rng.random() < 0.3 and g.decls[y][1] > 2:
+            hi = rng.randint(0, g.decls[y][1] - 1)
+            lo = rng.randint(0, hi)
+            body.append(("asel", y, hi, lo, g.expr(ins, 1)))
+        arms.append((pats, body))
+    comb = [("comb", [("assign", y, g.expr(ins, 1)), ("assign", y2, g.expr(ins, 1)),
+                      ("case", ("var", sel), arms, [("assign", y, g.expr(ins, 1))] if rng.random() < 0.7 else [])])]
+    c = g.cond(ins, 2)
+    t = g.decl("t", "out")
+    comb.append(("comb", [("assign", t, g.expr(ins, 1)),
+                          ("if", c, [("assign", t, g.expr(ins + [y], 2))], []),
+                          ("if", c, [("asel", t, 0, 0, g.cond(ins, 1))], [("assign", t, g.expr(ins, 2))])]))
+    q = g.decl("q", "out")
+    q2 = g.decl("q", "out")
+    farms = [([("lit", ws, False, v, 0)], [("assign", q, g.expr(ins + [q, q2, y], 2))] +
+              ([("assign", q2, g.expr(ins + [q], 1))] if rng.random() < 0.5 else []))
+             for v in rng.sample(range(1 << ws), min(1 << ws, rng.randint(4, 8)))]
+    ffs = [("ff", [("assign", q, g.lit(g.decls[q][1], False)), ("assign", q2, g.lit(g.decls[q2][1], False))],
+            [("case", ("var", sel), farms, [("assign", q2, ("var", q))])])]
+    return _finish(g, comb, ffs)
+
+
+def shape_priority(rng):
+    """base write + guarded full/partial overrides (version_split select fusion, LUT mode)"""
+    g = Gen(rng, p_bit=0, max_depth=2, wide=rng.random() < 0.3)
+    ins = [g.decl("i", "in") for _ in range(rng.randint(3, 5))]
+    comb = []
+    avail = list(ins)
+    for _ in range(rng.randint(1, 3)):
+        x = g.decl("x", "out" if rng.random() < 0.7 else "var")
+        w = g.decls[x][1]
+        body = [("assign", x, g.expr(avail, 2))]
+        for _ in range(rng.randint(2, 8)):
+            if w > 1 and rng.random() < 0.4:
+                hi = rng.randint(0, w - 1)
+                lo = rng.randint(0, hi)
+                inner = ("asel", x, hi, lo, g.expr(avail, 1))
+            else:
+                inner = ("assign", x, g.expr(avail + [x], 2) if rng.random() < 0.3 else g.expr(avail, 2))
+            body.append(("if", g.cond(avail, 1), [inner], []))
+        comb.append(("comb", body))
+        avail.append(x)
+    # bit-disjoint field writers of one variable
+    f = g.decl("f", "out", w=rng.choice([8, 12, 16, 32, 40, 64, 72]))
+    w = g.decls[f][1]
+    cuts = sorted(rng.sample(range(1, w), min(w - 1, rng.randint(1, 4))))
+    lo = 0
+    body = []
+    for cpos in cuts + [w]:
+        body.append(("asel", f, cpos - 1, lo, g.expr(avail, 2)))
+        lo = cpos
+    comb.append(("comb", body))
+    q = g.decl("q", "out")
+    ffs = [("ff", [("assign", q, g.lit(g.decls[q][1], False))], [("assign", q, g.expr(avail + [f, q], 2))])]
+    return _finish(g, comb, ffs)
+
+
+def shape_cone(rng, n=None):
+    """a child module with several hundred comb statements whose inputs change rarely (cone_gate:
+    MIN_CONE_STMTS 300, MIN_SEGMENT_STMTS 64), next to logic that changes every cycle.
+    Returns (module, slow_inputs) — stimulus should hold the slow inputs for long stretches."""
+    g = Gen(rng, p_bit=0, max_depth=1, wide=False)
+    n = n or rng.randint(320, 380)
+    slow = [g.decl("s", "in", w=rng.choice([8, 16, 32])) for _ in range(3)]
+    fast = [g.decl("f", "in", w=rng.choice([8, 16, 32])) for _ in range(2)]
+    comb = []
+    avail = list(slow)
+    layer = list(slow)
+    child_idx = []
+    for k in range(n):
+        t = g.decl("k", "var", w=rng.choice([8, 16, 32, 33, 64]), sg=False, two=False)
+        a = rng.choice(avail[-12:] if len(avail) > 12 else avail)
+        b = rng.choice(avail)
+        op = rng.choice(["add", "sub", "xor", "and", "or", "mul"])
+        if rng.random() < 0.2:
+            e = ("tern", ("bin", rng.choice(["lt", "eq", "ne"]), ("var", a), ("var", b)), ("var", a), ("bin", op, ("var", b), g.lit(8)))
+        else:
+            e = ("bin", op, ("var", a), ("var", b))
+        child_idx.append(len(comb))
+        comb.append(("assign", t, e))
+        avail.append(t)
+    co = g.decl("co", "out", w=64, sg=False, two=False)
+    # the cone output folds many internal nets so none of them is dead
+    acc = ("var", avail[-1])
+    for x in avail[3::7]:
+        acc = ("bin", "xor", acc, ("var", x))
+    child_idx.append(len(comb))
+    comb.append(("assign", co, acc))
+    # fast logic at the top reading the cone's output
+    fo = g.decl("fo", "out", w=64)
+    comb.append(("assign", fo, ("bin", "add", ("var", co), ("bin", "mul", ("var", fast[0]), ("var", fast[1])))))
+    q = g.decl("q", "out", w=32)
+    ffs = [("ff", [("assign", q, ("lit", 32, False, 0, 0))], [("assign", q, ("bin", "add", ("var", q), ("var", fo)))])]
+    m = _finish(g, comb, ffs, shuffle=False)
+    m["children"] = [{"name": "Cone", "items": child_idx}]
+    return m, slow
+
+
+def gen_stimulus_slow(rng, m, cycles, slow, period=7):
+    """stimulus in which the inputs in `slow` change only every `period` cycles"""
+    st = gen_stimulus(rng, m, cycles, p_reset=0.03)
+    ins = inputs_of(m)
+    held = None
+    out = []
+    for c, (r, vals) in enumerate(st):
+        vals = list(vals)
+        if held is None or c % period == 0:
+            held = {j: vals[j] for j, x in enumerate(ins) if x in slow}
+        for j in held:
+            vals[j] = held[j]
+        out.append((r, vals))
+    return out
+
+
+def shape_many(rng, n=None):
+    """many small independent statements (chunk boundaries of the JIT / C emitter, comb layout)"""
+    g = Gen(rng, p_bit=0, max_depth=2)
+    n = n or rng.randint(60, 160)
+    ins = [g.decl("i", "in") for _ in range(4)]
+    comb = []
+    avail = list(ins)
+    for k in range(n):
+        t = g.decl("m", "out" if rng.random() < 0.12 else "var")
+        comb.append(("assign", t, g.expr(avail[-10:] + ins, 2)))
+        avail.append(t)
+    o = g.decl("o", "out", w=64)
+    acc = ("var", avail[-1])
+    for x in avail[4::5]:
+        acc = ("bin", "xor", acc, ("var", x))
+    comb.append(("assign", o, acc))
+    ffs = []
+    for _ in range(rng.randint(1, 3)):
+        q = g.decl("q", "out")
+        ffs.append(("ff", [("assign", q, g.lit(g.decls[q][1], False))], [("assign", q, g.expr(avail + [q], 2))]))
+    return _finish(g, comb, ffs)
+
+
+SHAPES = {"chain": shape_chain, "lanes": shape_lanes, "case": shape_case, "priority": shape_priority, "many": shape_many}
